@@ -165,6 +165,35 @@ def format_code(
     keep_imports: bool = False,
     max_line_length: int = core.parse_line_length_from_pyproject_toml(),
 ) -> str:
+    if source and source[-1] not in "\r\n":
+        # Rules may insert statements after the last line of the source. That needs the last line
+        # to be terminated: format the terminated text, and hand the result back unterminated.
+        formatted = _format_code(
+            source + "\n",
+            preserve=preserve,
+            safe=safe,
+            keep_imports=keep_imports,
+            max_line_length=max_line_length,
+        )
+        return formatted[:-1] if formatted.endswith("\n") else formatted
+
+    return _format_code(
+        source,
+        preserve=preserve,
+        safe=safe,
+        keep_imports=keep_imports,
+        max_line_length=max_line_length,
+    )
+
+
+def _format_code(
+    source: str,
+    *,
+    preserve: Collection[str],
+    safe: bool,
+    keep_imports: bool,
+    max_line_length: int,
+) -> str:
     if re.search(r"#\s*pyrefact\s*:\s*skip_file", source):
         return source
 
